@@ -84,6 +84,11 @@ def dataset_specs(tier: str, purpose: str) -> list[dict]:
         {'family': 'ugrid', 'mesh': 'M4', 'supplied': ['edge_node', 'face_face'], 'fill': 'fillattr', 'deflate': True},
         {'family': 'cf2d', 'ny': 3, 'nx': 3, 'geometry': 'skew', 'deflate': True, 'packed_data': True},
     ]
+    if purpose == 'C08':
+        # the mask of a double precision grid file applied to single precision output of the same grid: the axis
+        # values are not binary fractions, so the two files' coordinate labels differ in the last digits
+        specs.append({'family': 'cf1d', 'ny': 3, 'nx': 4, 'lat_kind': 'tenths', 'lon_kind': 'tenths', 'lat0': 0.0, 'lon0': 0.0,
+                      'bounds': 'none', 'float32_twin': True})
     # no records yet (a grid or template file with an unlimited time axis), and a single record
     specs += [
         {'family': 'cf1d', 'ny': 3, 'nx': 3, 'nt': 0, 'ints': True},
@@ -185,6 +190,9 @@ def run_pipelines(case: dict, tmp: str):
     spec_b = dict(spec)
     spec_b['seed'] = spec['seed'] + 1      # same geometry, different labels
     ds_b, truth_b = prepare(spec_b, case['regime'], tmp, 'b')
+    if spec.get('float32_twin'):
+        for name in (truth_b.lat_name, truth_b.lon_name):
+            ds_b[name] = ds_b[name].astype('float32')
 
     polys = ref.ref_polygons(truth_a)
     geoms, _ = c07.palette(truth_a, polys)
